@@ -15,6 +15,8 @@ KNOWN_CLASSES = {
     ('C01', 'abort_stack_overflow'): 'C01-recursive-model-cycle',
     ('C16', 'abort_stack_overflow'): 'C01-recursive-model-cycle',
     ('C01', 'synth_name_collision'): 'C06-synthesised-name-collision',
+    ('C01', 'panic_parse'): 'C01-service-name-keyword',
+    ('C17', 'alias_doc_dropped'): 'C17-description-dropped-on-alias-types',
 }
 WF = {'t': 0, 'f': 0, 'x': 0, 'f_but_generated': 0}   # Spec/Wf.v hir_ok evaluated by the driver on every extracted table
 # classes of the compile oracle (harness/src/coracle.rs): files rustc is expected to reject -> open finding id
